@@ -6,6 +6,8 @@ Streams
             called on it; the stored states, the time vector and the stats of THAT run are
             sent to the Lean model (`flakeStats`) and every accessor output is compared;
             the property's clauses are evaluated per vial on the run (`predicates`).
+            With `rerun`: run, query every fromStates accessor, re-seed, run again, query again - the answers
+            must describe the current run.
   laststep  two-pass real run: the second pass stops in the step in which the last vial
             of the first pass nucleates (same seeds) - nucleation in the LAST step (K3).
   fake      accessor code on hand-made `_X/_t/stats` (as tests/test_snowflake.py::fakeS
@@ -280,6 +282,14 @@ def _run_impl(case):
                         eff_t_tot = float(kmax * case["dt"])
                         S = _mk_flake(case, t_tot=eff_t_tot)
                         S.run()
+            if case.get("rerun"):
+                # object history: query every accessor, re-seed, run again, query again - the second set of answers
+                # must describe the CURRENT run (the model is stateless: it only sees the current X, t, stats)
+                _observe(S, case)
+                S.seed = case["rerun"]["seed"]
+                if case["rerun"].get("seed_v") is not None:
+                    S.seed_v = case["rerun"]["seed_v"]
+                S.run()
             obs = _observe(S, case)
             obs["t_tot_eff"] = eff_t_tot
             obs["N"] = int(np.ceil(eff_t_tot / case["dt"])) + 1
@@ -697,6 +707,8 @@ def classify(case, impl):
         st = case.get("store", "all")
         tags.append("store=" + ("all" if st == "all" else "indices" if isinstance(st, list) else "string"))
         tags.append("cn" if case.get("cn") is not None else "no-cn")
+        if case.get("rerun"):
+            tags.append("history=run,query,reseed,run,query")
         tags.append(f"group={case.get('group', 'all')}")
         tend = impl["t"][impl["ncols"] - 1]
         if any(x is not None and x > tend for x in impl["tnuc"]):
@@ -797,6 +809,8 @@ def _real(rng, big=False):
                 qfrac=sorted(rng.random() for _ in range(4)) + [0, 1], offgrid=True)
     if unstable:
         case["unstable"] = True
+    if rng.random() < 0.15:
+        case["rerun"] = {"seed": rng.randint(0, 10 ** 6), "seed_v": rng.choice([None, rng.randint(0, 10 ** 6)])}
     if holds and rng.random() < 0.5:
         case["cn"] = rng.choice([h[0] for h in holds])
     elif rng.random() < 0.1:
